@@ -51,6 +51,13 @@ Definition acase_dom (c : acase) : bool := true.
 Definition gcase_prop_ok := gcase_spec_ok.
 Definition gcase_dom (c : gcase) : bool := true.
 
+(* NewConfigFromStrings + Get on spec strings *)
+Record pcase := { p_specs : list str; p_query : str; p_observed : level }.
+Definition pcase_model_ok (c : pcase) : bool := level_eqb (sconfig_get (config_parse (p_specs c)) (p_query c)) (p_observed c).
+Definition pcase_spec_ok (c : pcase) : bool := level_eqb (config_parse_get_spec (p_specs c) (p_query c)) (p_observed c).
+Definition pcase_prop_ok := pcase_spec_ok.
+Definition pcase_dom (c : pcase) : bool := true.
+
 (* ================= stream B: suggestMavenVersion ================= *)
 Definition sres_eqb (a b : sres N) : bool :=
   match a, b with
